@@ -176,7 +176,10 @@ def bytrack_inputs(draw):
         nodes.append([nid, t, lab])
     # nodes may carry attributes left over from another solution (e.g. old track ids)
     stale = [draw(st.integers(1, 3)) for _ in nodes] if draw(st.booleans()) else None
-    return {"spatial": list(spatial), "frames": frames, "nodes": nodes, "edges": edges, "stale_track_ids": stale}
+    return {"spatial": list(spatial), "frames": frames, "nodes": nodes, "edges": edges, "stale_track_ids": stale,
+            # how the attributes got onto the graph: Python ints, or numpy integers (from arrays / tables)
+            "attr_repr": draw(st.sampled_from(["int", "int", "np.int64", "np.uint32", "np.uint64"])),
+            "seg_dtype": draw(st.sampled_from(["uint32", "uint32", "int64", "uint16", "uint64"]))}
 
 
 def probe_bytrack(inp) -> ProbeResult:
@@ -184,10 +187,13 @@ def probe_bytrack(inp) -> ProbeResult:
 
     res = ProbeResult()
     spatial = tuple(inp["spatial"])
-    seg = np.array(inp["frames"], dtype=np.uint32).reshape((-1, *spatial))
+    seg = np.array(inp["frames"], dtype=inp.get("seg_dtype", "uint32")).reshape((-1, *spatial))
+    rep = {"int": int, "np.int64": np.int64, "np.uint32": np.uint32, "np.uint64": np.uint64}[inp.get("attr_repr", "int")]
+    if inp.get("attr_repr", "int") != "int":
+        res.tags.append("bytrack:numpy_integer_attributes")
     g = nx.DiGraph()
     for i, (n, t, lab) in enumerate(inp["nodes"]):
-        g.add_node(n, time=t, seg_id=lab)
+        g.add_node(n, time=rep(t), seg_id=rep(lab))
         if inp.get("stale_track_ids"):
             g.nodes[n]["track_id"] = inp["stale_track_ids"][i]
             g.nodes[n]["tracklet_id"] = inp["stale_track_ids"][i]
